@@ -305,8 +305,8 @@ func runC11(p params) error {
 		}
 		var rp struct {
 			Cases []struct {
-				Scenario string   `json:"scenario"`
-				Input    c11Input `json:"input"`
+				Scenario string          `json:"scenario"`
+				Raw      json.RawMessage `json:"input"`
 			} `json:"cases"`
 		}
 		if err := json.Unmarshal(b, &rp); err != nil {
@@ -314,7 +314,15 @@ func runC11(p params) error {
 		}
 		for _, c := range rp.Cases {
 			sc := strings.SplitN(c.Scenario, "/", 2)[0]
-			c11AddCase(out, sc, c.Input)
+			if strings.HasPrefix(sc, "concurrent") {
+				c11ConcReplay(out, sc, c.Raw)
+				continue
+			}
+			var in c11Input
+			if err := json.Unmarshal(c.Raw, &in); err != nil {
+				return err
+			}
+			c11AddCase(out, sc, in)
 		}
 		return out.Finish()
 	}
@@ -356,6 +364,7 @@ func runC11(p params) error {
 		cap := []int{0, 5, 8, 16, 64, -3}[r.IntN(6)]
 		c11AddCase(out, "random-long", c11Input{st, cap, c11GenSeq(r, 60+r.IntN(140), 4+r.IntN(80), &next)})
 	}
+	c11ConcGen(out, p, r)
 	return out.Finish()
 }
 
